@@ -3,11 +3,18 @@
    The handler walks the global declarations in tree order; for each it takes the token slice of
    the declaration (`info.slice(&tokens[gd.offset..])`), classifies every token and delta-encodes
    the classified ones against `previous_token_pos`, the position of the last emitted token.
+   Inside a procedure declaration an identifier is looked up WITHOUT the procedure's local table
+   when it stands in a type expression (`in_type_expression`: the previous non-comment token of the
+   declaration's slice is `:` or `of`).  After the declarations the tokens from
+   `ast.to_range().end` (clamped to the number of tokens) to the end of the token vector are
+   mapped like an error declaration (`collect_error`): comments behind the last declaration.
    Panic sites, all explicit here:
      - `&tokens[gd.offset..]`, `info.slice(tokens)`            (STable SiteTokenSlice)
      - `text[token.range.clone()]`                              (STextSlice)
      - `line - previous.line`, `character - previous.character` (SSubOverflow; the server is a
        debug build, so the u32 subtraction panics instead of wrapping)
+   (`slice[..i]` cannot panic: i is an index of `slice`; the trailing slice `a..len` with
+   a = min(end, len) cannot panic either - it still goes through [slice] here.)
    Not modelled: `try_into::<u32>().expect(..)` on the length and the u32 width of line/column
    counters (texts of 4 GiB). *)
 From Spl Require Export Model.Cursor.
@@ -119,12 +126,25 @@ Definition get_local_table (pd : procdecl) (g : gtable) : option ltable :=
 Definition decl_mod (v : ventry) (idx : nat) : N :=
   if is_name_token (ve_name v) (fst (ve_range v)) idx then mod_decl else mod_none.
 
-(* the classifier of collect_proc_dec *)
-Definition class_proc_dec (pd : procdecl) (g : gtable) (idx : nat) (tok : token) : option (N * N) :=
+Definition is_comment_kind (k : kind) : bool := match k with Comment _ => true | _ => false end.
+
+(* slice[..i].iter().rev().find(|previous| !Comment).map_or(false, |previous| Colon | Of)
+   ([rev'] = List.rev computed in linear time, List.rev_alt) *)
+Definition in_type_expression (sl : list token) (i : nat) : bool :=
+  match find (fun p => negb (is_comment_kind (tk p))) (rev' (firstn i sl)) with
+  | Some p => match tk p with Colon | KOf => true | _ => false end
+  | None => false
+  end.
+
+(* the classifier of collect_proc_dec; [sl] is the token slice of the declaration, [idx] = first + i *)
+Definition class_proc_dec (pd : procdecl) (g : gtable) (sl : list token) (idx : nat) (tok : token)
+  : option (N * N) :=
+  let local :=
+    if in_type_expression sl (idx - i_s (pd_info pd)) then None else get_local_table pd g in
   if opt_name_token (pd_name pd) idx then Some (ty_function, mod_decl)
   else match tk tok with
        | Ident name =>
-           match lt_lookup (get_local_table pd g) (Some g) name with
+           match lt_lookup local (Some g) name with
            | Some (EntType _) => Some (ty_type, mod_none)
            | Some (EntProc _) => Some (ty_function, mod_none)
            | Some (EntVar v) => Some (ty_variable, decl_mod v idx)
@@ -153,10 +173,11 @@ Fixpoint collect (cls : nat -> token -> option (N * N)) (t : text) (idx : nat) (
       end
   end.
 
-Definition decl_class (g : gdecl) (table : gtable) : nat -> token -> option (N * N) :=
+(* [sl]: the token slice of the declaration *)
+Definition decl_class (g : gdecl) (table : gtable) (sl : list token) : nat -> token -> option (N * N) :=
   match g with
   | GType td => class_type_dec td
-  | GProc pd => class_proc_dec pd table
+  | GProc pd => class_proc_dec pd table sl
   | GError _ => class_error
   end.
 
@@ -165,20 +186,31 @@ Definition collect_decl (d : doc) (g : gdecl) (off : nat) (prev : N * N) : sres 
   dos tokens <- lift (slice_from (d_toks d) off);
   let inf := gdecl_info g in
   dos sl <- lift (slice tokens (info_range inf));
-  collect (decl_class g (d_table d)) (d_text d) (i_s inf) sl prev.
+  collect (decl_class g (d_table d) sl) (d_text d) (i_s inf) sl prev.
 
-Fixpoint collect_decls (d : doc) (l : list (gdecl * nat)) (prev : N * N) : sres (list semtok) :=
+Fixpoint collect_decls (d : doc) (l : list (gdecl * nat)) (prev : N * N) : sres (list semtok * (N * N)) :=
   match l with
-  | [] => SOk []
+  | [] => SOk ([], prev)
   | (g, off) :: r =>
       dos res <- collect_decl d g off prev;
       dos rest <- collect_decls d r (snd res);
-      SOk (fst res ++ rest)
+      SOk (fst res ++ fst rest, snd rest)
   end.
+
+(* `ast.to_range().end.min(tokens.len())`: where the trailing slice starts *)
+Definition trailing_start (d : doc) : nat := Nat.min (i_e (pg_info (d_ast d))) (length (d_toks d)).
+
+(* collect_error(&AstInfo::new(start..tokens.len()), text, &tokens, previous_token_pos) *)
+Definition collect_trailing (d : doc) (prev : N * N) : sres (list semtok * (N * N)) :=
+  let a := trailing_start d in
+  dos sl <- lift (slice (d_toks d) (a, length (d_toks d)));
+  collect class_error (d_text d) a sl prev.
 
 (* semantic_tokens: the `data` of the response *)
 Definition semantic_tokens (d : doc) : sres (list semtok) :=
-  collect_decls d (pg_decls (d_ast d)) (0%N, 0%N).
+  dos res <- collect_decls d (pg_decls (d_ast d)) (0%N, 0%N);
+  dos tr <- collect_trailing d (snd res);
+  SOk (fst res ++ fst tr).
 
 (* ---- decoding (what an editor does with `data`) ---- *)
 Record abstok := { at_line : N; at_col : N; at_len : N; at_ty : N; at_mod : N }.
@@ -201,8 +233,9 @@ Definition decode (l : list semtok) : list abstok := decode_from 0 0 l.
    `lex`; the last token is Eof there);
    tree: every declaration has i_s <= i_e, lies inside the token vector, and starts where its
    predecessor ended or later (ParserProofs.T5_per_declaration proves this for `parse`; build and
-   analyze change neither offsets nor ranges), and a declaration's name, when it has a non-empty
-   range, ends with an identifier token.
+   analyze change neither offsets nor ranges), a declaration's name, when it has a non-empty
+   range, ends with an identifier token, and the program's own range ends where the last
+   declaration ends or later ([hi]: the trailing slice starts there).
    One pass over text and tokens: [rest] is the text from byte offset [off] on. *)
 Definition clean_head (s : text) : bool :=
   match s with c :: _ => negb ((c =? 10)%N || (c =? 13)%N) | [] => false end.
@@ -238,18 +271,19 @@ Definition name_is_ident (toks : list token) (off : nat) (n : option ident) : bo
   | None => true
   end.
 
-Fixpoint decls_wf_b (toks : list token) (lo : nat) (l : list (gdecl * nat)) : bool :=
+Fixpoint decls_wf_b (toks : list token) (lo : nat) (l : list (gdecl * nat)) (hi : nat) : bool :=
   match l with
-  | [] => true
+  | [] => Nat.leb lo hi
   | (g, off) :: r =>
       let inf := gdecl_info g in
       Nat.leb lo (off + i_s inf) && Nat.leb (i_s inf) (i_e inf) && Nat.leb (off + i_e inf) (length toks)
       && name_is_ident toks off (gdecl_name g)
-      && decls_wf_b toks (off + i_e inf) r
+      && decls_wf_b toks (off + i_e inf) r hi
   end.
 
 Definition doc_wf_b (d : doc) : bool :=
-  toks_wf_from (d_text d) 0 (d_toks d) && decls_wf_b (d_toks d) 0 (pg_decls (d_ast d)).
+  toks_wf_from (d_text d) 0 (d_toks d)
+  && decls_wf_b (d_toks d) 0 (pg_decls (d_ast d)) (i_e (pg_info (d_ast d))).
 
 (* ---- specification side (used by Proofs/SemTokProofs.v and by the judge) ---- *)
 Local Open Scope N_scope.
